@@ -326,7 +326,8 @@ fn run_tables(seed: u64, idx: u64, tier: Tier, out: &mut CaseOut, c05: bool) {
         }
         let mut findings: Vec<Finding> = Vec::new();
         // a table none of whose rows renders anything has nothing to frame
-        if !table.has_nested() && table.visible_rows().is_empty() && grid.iter().any(|r| r.iter().any(|c| is_box(*c) || *c == '/')) {
+        // (side by side only: the stacked layout draws its rule skeleton for every row)
+        if !lay.vertical && !table.has_nested() && table.visible_rows().is_empty() && grid.iter().any(|r| r.iter().any(|c| is_box(*c) || *c == '/')) {
             let blank = table.rows.iter().flatten().any(|c| c.blank);
             findings.push(Finding {
                 sig: if blank { "rule-without-rows:blank-cells".into() } else { "rule-without-rows".into() },
